@@ -124,3 +124,192 @@ Proof.
     rewrite Z.mul_comm, Z_div_mult by lia. reflexivity.
 Qed.
 End INLINE.
+
+(* ---------------- crossline set and z-slice set ---------------- *)
+Section XLZ.
+Variable H : hdr.
+Hypothesis W : wf3 H = true.
+Hypothesis D : default_layout H.
+Let F := wf3_facts H W.
+
+Lemma in_regular (off : Z -> Z) L lo hi j :
+  lo <= j < hi -> In (off j, L, j * L) (flat_map (fun j => [(off j, L, j * L)]) (zrange lo hi)).
+Proof. intro Hj. apply in_flat_map. exists j. split; [apply in_zrange; exact Hj | left; reflexivity]. Qed.
+
+Lemma xl_set_ok x : 0 <= x -> x mod 4 = 0 ->
+  exists v, ld_read_and_decompress_xl_set H x = Return v /\
+    av_shape v = [s_PI H; 4; s_PZ H] /\
+    (forall a b c, 0 <= a < s_PI H -> 0 <= b < 4 -> 0 <= c < s_PZ H ->
+       av_cell v [a; b; c] = spec_cell3 H a (x + b) c) /\
+    av_reads v = map (fun j => (s_ub3 H * unit_index3 H j (x / 4) 0, s_ub3 H * (s_PZ H / 4))) (zrange 0 (s_PI H / 4)).
+Proof.
+  intros Hx Hx4. unfold ld_read_and_decompress_xl_set.
+  rewrite (r_fl_cb H F), (r_fl_p2 H F). cbv iota.
+  eexists. split; [reflexivity|].
+  destruct D as [D0 D1].
+  destruct (f_PX H F) as (_ & _ & PX4 & PXb). destruct (f_PZ H F) as (_ & _ & PZ4' & PZb).
+  destruct (f_PI H F) as (_ & _ & PI4 & PIb).
+  pose proof (f_ub H F) as Ub.
+  assert (CBX : rd_chunk_bytes H * rd_shape_pad1 H / 4 = s_ub3 H * ((s_PX H / 4) * (s_PZ H / 4))).
+  { rewrite (cb_units H W (conj D0 D1)), (r_P1 H F). rewrite (exact_div (s_PX H) 4 ltac:(lia) PX4) at 1.
+    replace (s_ub3 H * (s_PZ H / 4) * (4 * (s_PX H / 4))) with ((s_ub3 H * ((s_PX H / 4) * (s_PZ H / 4))) * 4) by ring.
+    apply Z_div_mult. lia. }
+  rewrite (r_bs1 H F), (r_P0 H F), (r_P2 H F), D1, CBX.
+  pose proof (cb_units H W (conj D0 D1)) as CB.
+  set (X4 := s_PX H / 4) in *. set (Z4 := s_PZ H / 4) in *. set (ub := s_ub3 H) in *.
+  set (cb := rd_chunk_bytes H) in *.
+  assert (Z4pos : 0 < Z4) by (subst Z4; apply Z.div_str_pos; pose proof (f_bs2 H F); lia).
+  split; [reflexivity|]. split.
+  - intros a b c Ha Hb Hc. cbn [a_decomp av_cell].
+    pose proof (div4_lt a _ Ha PI4) as Ha4. pose proof (div4_lt c _ Hc PZ4') as Hc4. fold Z4 in Hc4.
+    assert (K : unit_no [s_PI H; 4; s_PZ H] [a; b; c] 0 = (a / 4) * Z4 + c / 4).
+    { cbn [unit_no]. rewrite !cdiv_exact by (assumption || reflexivity). change (4 / 4) with 1.
+      rewrite (Z.div_small b 4) by lia. fold Z4. ring. }
+    set (j := a / 4) in *. set (k := j * Z4 + c / 4) in *.
+    assert (K1 : j * cb <= 0 + k * ub) by (subst k; rewrite CB; nia).
+    assert (K2 : 0 + (k + 1) * ub <= j * cb + cb) by (subst k; rewrite CB; nia).
+    erewrite decomp_cell_hit with (ub := ub) (k := k)
+      (r := ((x / 4) * cb + j * (ub * (X4 * Z4)), cb, j * cb));
+      [ | apply in_shape3; lia | apply (r_ubof H F) | exact Ub | exact K
+        | apply (compat_regular (fun j => x / 4 * cb + j * (ub * (X4 * Z4))) cb); subst cb; rewrite CB; nia
+        | apply (in_regular (fun j => x / 4 * cb + j * (ub * (X4 * Z4))) cb); lia
+        | cbn [rd_lo]; lia | cbn [rd_hi]; lia ].
+    unfold spec_cell3. cbn [rd_src cell_no]. f_equal.
+    + rewrite (unit_index3_default H W (conj D0 D1)) by lia. fold X4 Z4 ub.
+      replace ((x + b) / 4) with (x / 4).
+      2:{ rewrite (exact_div x 4 ltac:(lia) Hx4) at 2. rewrite Z.mul_comm, Z.div_add_l by lia.
+          rewrite (Z.div_small b 4) by lia. lia. }
+      fold j. subst k. rewrite CB. ring.
+    + replace ((x + b) mod 4) with (b mod 4); [ring|].
+      rewrite (exact_div x 4 ltac:(lia) Hx4) at 1. rewrite Z.add_comm, Z.mul_comm, Z_mod_plus_full. reflexivity.
+  - cbn [a_decomp av_reads]. unfold reads_of. rewrite map_flat_map_single. apply map_ext. intro j.
+    rewrite (unit_index3_default H W (conj D0 D1)) by lia. fold X4 Z4 ub. rewrite CB. f_equal; ring.
+Qed.
+End XLZ.
+
+Section ZSET.
+Variable H : hdr.
+Hypothesis W : wf3 H = true.
+Hypothesis D : default_layout H.
+Let F := wf3_facts H W.
+
+Lemma zsplit z m : 0 < m -> m mod 4 = 0 -> z / 4 = (z / m) * (m / 4) + (z mod m) / 4.
+Proof.
+  intros Hm M4. pose proof (exact_div m 4 ltac:(lia) M4) as E. set (u := m / 4) in *.
+  rewrite (Z.div_mod z m ltac:(lia)) at 1. rewrite E at 1.
+  replace (4 * u * (z / m) + z mod m) with ((z / m * u) * 4 + z mod m) by ring.
+  rewrite Z.div_add_l by lia. reflexivity.
+Qed.
+
+Lemma zslice_set_ok z b2 : 0 <= z < s_PZ H ->
+  exists v, ld_read_and_decompress_zslice_set H (s_PI H / 4) (s_PX H / 4) b2 (z / s_bs2 H) z = Return v /\
+    av_shape v = [s_PI H; s_PX H; 4] /\
+    (forall a b c, 0 <= a < s_PI H -> 0 <= b < s_PX H -> 0 <= c < 4 ->
+       av_cell v [a; b; c] = spec_cell3 H a b (4 * (z / 4) + c)) /\
+    av_reads v = map (fun k => (s_ub3 H * (k * (s_PZ H / 4) + z / 4), s_ub3 H)) (zrange 0 ((s_PI H / 4) * (s_PX H / 4))).
+Proof.
+  intro Hz. unfold ld_read_and_decompress_zslice_set.
+  rewrite (r_fl_cb H F), (r_fl_bs2 H F). cbn [orb]. cbv iota.
+  erewrite flat_mapM_Return by (intros; reflexivity). cbn [bind].
+  eexists. split; [reflexivity|].
+  destruct D as [D0 D1].
+  destruct (f_PX H F) as (_ & _ & PX4 & PXb). destruct (f_PZ H F) as (_ & _ & PZ4' & PZb).
+  destruct (f_PI H F) as (_ & _ & PI4 & PIb).
+  pose proof (f_ub H F) as Ub. pose proof (f_bs2 H F) as B2. pose proof (f_bs2m H F) as B2m.
+  pose proof (cb_units H W (conj D0 D1)) as CB.
+  rewrite (r_P0 H F), (r_P1 H F), (r_bb H F), (r_ub H F), (r_bs2 H F).
+  assert (OFF : z / s_bs2 H * 4096 + z mod s_bs2 H / 4 * s_ub3 H = s_ub3 H * (z / 4)).
+  { rewrite (zsplit z (s_bs2 H)) by lia. rewrite <- (ub_u2 H W (conj D0 D1)). ring. }
+  set (X4 := s_PX H / 4) in *. set (I4 := s_PI H / 4) in *. set (Z4 := s_PZ H / 4) in *. set (ub := s_ub3 H) in *.
+  set (cb := rd_chunk_bytes H) in *.
+  split; [reflexivity|]. split.
+  - intros a b c Ha Hb Hc. cbn [a_decomp av_cell].
+    pose proof (div4_lt a _ Ha PI4) as Ha4. pose proof (div4_lt b _ Hb PX4) as Hb4. fold I4 in Ha4. fold X4 in Hb4.
+    assert (K : unit_no [s_PI H; s_PX H; 4] [a; b; c] 0 = (a / 4) * X4 + b / 4).
+    { cbn [unit_no]. rewrite !cdiv_exact by (assumption || reflexivity). change (4 / 4) with 1.
+      rewrite (Z.div_small c 4) by lia. fold X4. ring. }
+    set (k := (a / 4) * X4 + b / 4) in *.
+    assert (Kr : 0 <= k < I4 * X4) by (subst k; nia).
+    erewrite decomp_cell_hit with (ub := ub) (k := k)
+      (r := (z / s_bs2 H * 4096 + z mod s_bs2 H / 4 * ub + k * cb, ub, k * ub));
+      [ | apply in_shape3; lia | apply (r_ubof H F) | exact Ub | exact K
+        | apply (compat_regular (fun k => z / s_bs2 H * 4096 + z mod s_bs2 H / 4 * ub + k * cb) ub); lia
+        | apply (in_regular (fun k => z / s_bs2 H * 4096 + z mod s_bs2 H / 4 * ub + k * cb) ub); lia
+        | cbn [rd_lo]; lia | cbn [rd_hi]; lia ].
+    unfold spec_cell3. cbn [rd_src cell_no]. f_equal.
+    + assert (Hz4 : 0 <= z / 4) by (apply Z.div_pos; lia).
+      rewrite (unit_index3_default H W (conj D0 D1)).
+      2:{ apply Z.div_pos; lia. }
+      fold X4 Z4 ub. replace ((4 * (z / 4) + c) / 4) with (z / 4).
+      2:{ rewrite Z.mul_comm, Z.div_add_l by lia. rewrite (Z.div_small c 4) by lia. lia. }
+      rewrite OFF. subst k. rewrite CB. ring.
+    + replace ((4 * (z / 4) + c) mod 4) with (c mod 4); [ring|].
+      rewrite Z.add_comm, Z.mul_comm, Z_mod_plus_full. reflexivity.
+  - cbn [a_decomp av_reads]. unfold reads_of. rewrite map_flat_map_single. apply map_ext. intro k.
+    rewrite OFF, CB. f_equal. ring.
+Qed.
+End ZSET.
+
+Section XLZ_TOP.
+Variable H : hdr.
+Hypothesis W : wf3 H = true.
+Hypothesis D : default_layout H.
+Let F := wf3_facts H W.
+
+Lemma read_crossline_default xl : 0 <= xl < s_nxl H ->
+  exists v, rd_read_crossline H xl = Return v /\ av_shape v = [s_nil H; s_ns H] /\
+    (forall i z, 0 <= i < s_nil H -> 0 <= z < s_ns H -> av_cell v [i; z] = spec_cell3 H i xl z) /\
+    av_reads v = map (fun j => (s_ub3 H * unit_index3 H j (xl / 4) 0, s_ub3 H * (s_PZ H / 4))) (zrange 0 (s_PI H / 4)).
+Proof.
+  intro Hxl. unfold rd_read_crossline.
+  rewrite (r_not2d H F), (r_bs0 H F), (r_bs1 H F), (r_nil H F), (r_nxl H F), (r_ns H F).
+  destruct D as [D0 D1]. rewrite D0, D1. cbv iota.
+  replace ((0 <=? xl) && (xl <? s_nxl H)) with true by lia. cbn [negb]. cbv iota.
+  change ((4 =? 4) && (4 =? 4)) with true. cbv iota.
+  pose proof (Z.div_mod xl 4 ltac:(lia)) as DM. pose proof (Z.mod_pos_bound xl 4 ltac:(lia)) as MB.
+  destruct (xl_set_ok H W (conj D0 D1) (4 * (xl / 4))) as (v & Ev & Sv & Cv & Rv).
+  { assert (0 <= xl / 4) by (apply Z.div_pos; lia). lia. }
+  { rewrite Z.mul_comm. apply Z_mod_mult. }
+  rewrite Ev. cbn [bind].
+  destruct (f_PI H F) as (PI1 & _ & _ & _). destruct (f_PZ H F) as (PZ1 & _ & _ & _).
+  pose proof (f_nil H F). pose proof (f_ns H F).
+  unfold a_slice. rewrite Sv. cbn [subs_ok slice_shape].
+  replace ((- (4) <=? xl mod 4) && (xl mod 4 <? 4) && true) with true by lia. cbn [negb bind].
+  rewrite !norm_bound_in by lia. rewrite !Z.sub_0_r.
+  replace (Z.max 0 (s_nil H)) with (s_nil H) by lia. replace (Z.max 0 (s_ns H)) with (s_ns H) by lia.
+  eexists. split; [reflexivity|]. cbn [av_shape av_cell av_reads]. split; [reflexivity|]. split.
+  - intros i z Hi Hz. rewrite in_shape2 by lia. cbn [slice_index].
+    replace (xl mod 4 <? 0) with false by lia. rewrite !norm_bound_in by lia. rewrite !Z.add_0_l.
+    rewrite Cv by lia. f_equal. lia.
+  - rewrite Rv. replace (4 * (xl / 4) / 4) with (xl / 4); [reflexivity|].
+    rewrite Z.mul_comm, Z_div_mult by lia. reflexivity.
+Qed.
+
+Lemma read_zslice_default z : 0 <= z < s_ns H ->
+  exists v, rd_read_zslice H z = Return v /\ av_shape v = [s_nil H; s_nxl H] /\
+    (forall i x, 0 <= i < s_nil H -> 0 <= x < s_nxl H -> av_cell v [i; x] = spec_cell3 H i x z) /\
+    av_reads v = map (fun k => (s_ub3 H * (k * (s_PZ H / 4) + z / 4), s_ub3 H)) (zrange 0 ((s_PI H / 4) * (s_PX H / 4))).
+Proof.
+  intro Hz. unfold rd_read_zslice.
+  rewrite (r_not2d H F), (r_fl_p2 H F), (r_fl_bs2 H F), (r_bs0 H F), (r_bs1 H F), (r_bs2 H F), (r_nil H F),
+    (r_nxl H F), (r_ns H F), (r_P0 H F), (r_P1 H F), (r_P2 H F).
+  destruct D as [D0 D1]. rewrite D0, D1. cbn [orb]. cbv iota.
+  replace ((0 <=? z) && (z <? s_ns H)) with true by lia. cbn [negb]. cbv iota.
+  change ((4 =? 4) && (4 =? 4)) with true. cbv iota.
+  destruct (f_PI H F) as (PI1 & _ & _ & _). destruct (f_PX H F) as (PX1 & _ & _ & _).
+  destruct (f_PZ H F) as (PZ1 & _ & _ & _).
+  destruct (zslice_set_ok H W (conj D0 D1) z (s_PZ H / s_bs2 H)) as (v & Ev & Sv & Cv & Rv); [lia|].
+  rewrite Ev. cbn [bind].
+  pose proof (f_nil H F). pose proof (f_nxl H F).
+  pose proof (Z.div_mod z 4 ltac:(lia)) as DM. pose proof (Z.mod_pos_bound z 4 ltac:(lia)) as MB.
+  unfold a_slice. rewrite Sv. cbn [subs_ok slice_shape].
+  replace ((- (4) <=? z mod 4) && (z mod 4 <? 4) && true) with true by lia. cbn [negb bind].
+  rewrite !norm_bound_in by lia. rewrite !Z.sub_0_r.
+  replace (Z.max 0 (s_nil H)) with (s_nil H) by lia. replace (Z.max 0 (s_nxl H)) with (s_nxl H) by lia.
+  eexists. split; [reflexivity|]. cbn [av_shape av_cell av_reads]. split; [reflexivity|]. split.
+  - intros i x Hi Hx. rewrite in_shape2 by lia. cbn [slice_index].
+    replace (z mod 4 <? 0) with false by lia. rewrite !norm_bound_in by lia. rewrite !Z.add_0_l.
+    rewrite Cv by lia. f_equal. lia.
+  - exact Rv.
+Qed.
+End XLZ_TOP.
